@@ -635,3 +635,42 @@ def env_values_satisfy_constraints(kind: int, ti: int, then_reset: bool) -> bool
             good = x is None or type(x) is bool
         hold("inv", good, lambda: "with APP_X=%r the field of kind %d holds %r" % (text, kind, x))
     return True
+
+
+# --------------------------------------------------------------------------- declared defaults of any sequence kind
+@obligation(prop="C01", sites=("inv",), encodes=["cincoconfig.fields.list_field.ListField.__setdefault__"],
+            budget={"quick": 60, "thorough": 120},
+            what="a typed list whose (valid) declared default is a list, a tuple, or a callable returning either, "
+                 "with items in raw or normal form: the freshly built configuration holds a validating typed list "
+                 "of normalised items, also after a reset, and never the declared default object itself")
+def list_default_of_any_sequence_kind(kind: int, raw: bool, then_reset: bool, secret_items: bool) -> bool:
+    """
+    pre: 0 <= kind <= 3
+    post: _
+    """
+    from cincoconfig import ChallengeField
+    from cincoconfig.fields.secure_field import DigestValue
+    items = ["1", 2] if raw else [1, 2]
+    if secret_items:
+        items = ["a", "b"]
+    declared = [items, tuple(items), (lambda: list(items)), (lambda: tuple(items))][0]
+    for i, cand in enumerate((items, tuple(items), (lambda: list(items)), (lambda: tuple(items)))):
+        if kind == i:
+            declared = cand
+    schema = Schema()
+    schema.x = ListField(ChallengeField("md5") if secret_items else IntField(min=0), default=declared)
+    cfg = schema()
+    if then_reset:
+        reset_value(cfg, "x")
+    x = cfg.x
+    hold("inv", type(x) is ListProxy and x is not declared, lambda: "fresh value is %r, not a typed list" % (x,))
+    if secret_items:
+        hold("inv", all(type(i) is DigestValue for i in x), lambda: "plaintext items in a list of challenge fields: %r" % (list(x),))
+    else:
+        hold("inv", list(x) == [1, 2] and all(type(i) is int for i in x), lambda: "items not normalised: %r" % (list(x),))
+        try:
+            x.append(-1)
+            hold("inv", False, "the default value accepts an invalid item")
+        except ValueError:
+            pass
+    return True
